@@ -24,16 +24,16 @@ func init() { streams["c20"] = streamC20 }
 
 // fakeKDC listens on one port over TCP and UDP with a fixed behaviour per protocol.
 type fakeKDC struct {
-	port      int
-	tcpMode   string // reply-close | reply-hold | partial | close | silent | refuse
-	udpMode   string // reply | silent | refuse
-	reply     []byte // Kerberos reply body (without length prefix)
-	tl        net.Listener
-	uc        net.PacketConn
-	mu        sync.Mutex
-	gotTCP    [][]byte
-	gotUDP    [][]byte
-	stopped   chan struct{}
+	port    int
+	tcpMode string // reply-close | reply-hold | partial | close | silent | refuse
+	udpMode string // reply | silent | refuse
+	reply   []byte // Kerberos reply body (without length prefix)
+	tl      net.Listener
+	uc      net.PacketConn
+	mu      sync.Mutex
+	gotTCP  [][]byte
+	gotUDP  [][]byte
+	stopped chan struct{}
 }
 
 func newFakeKDC(tcpMode, udpMode string, reply []byte) *fakeKDC {
